@@ -57,8 +57,8 @@ theorem splitFiber_val (d : Nat) (f : Tree Int Int (d + 1)) (hw : Ft.WF (d + 1) 
   have hE : Sorted (present (0 : Int) d f) := present_sorted hw.sorted
   have hspec := uniform_spec step 0 0 as ae false (present (0 : Int) d f) hs hact (Int.le_refl 0) (Int.le_refl 0) hE
   have hr' : r = partsTree d (uSpec step 0 0 as ae false (present (0 : Int) d f)) := by
-    unfold splitFiber splitFiberParts effActive splitIter at hr
-    simp only at hr
+    unfold splitFiber splitFiberParts effActive splitIterOn presentFmt at hr
+    simp only [Bool.false_eq_true, if_false] at hr
     rw [hspec] at hr
     simpa using hr.symm
   -- the upper fiber, as an association list
@@ -220,8 +220,8 @@ theorem splitFiber_ok (U : List Int) (hUr : ∀ x ∈ U, as ≤ x ∧ x < ae) (h
   have hE : Sorted (present (0 : Int) d f) := present_sorted hw.sorted
   have hspec := uniform_spec step 0 0 as ae false (present (0 : Int) d f) hs hact (Int.le_refl 0) (Int.le_refl 0) hE
   have hr' : r = partsTree d (uSpec step 0 0 as ae false (present (0 : Int) d f)) := by
-    unfold splitFiber splitFiberParts effActive splitIter at hr
-    simp only at hr
+    unfold splitFiber splitFiberParts effActive splitIterOn presentFmt at hr
+    simp only [Bool.false_eq_true, if_false] at hr
     rw [hspec] at hr
     simpa using hr.symm
   have hrl : (show List (Int × Tree Int Int (d + 1)) from r) =
